@@ -33,7 +33,7 @@ theorem C08_check_false_on_fresh_slot (seq w : Nat) (hw : w ≠ 0) : checkVal se
 instead of waiting (program point `w0`, for the blocking `recv` and the shared `Stream::poll`). -/
 theorem C08_pairing (σ : St) (t inp j : Nat) (hpc : (σ.th t).pc = .w0 j)
     (ho : (σ.th t).outer = .recv ∨ (σ.th t).outer = .poll false) :
-    (σ.pos (σ.th t).s % σ.N ≠ j → ((stepRun σ t inp).2.th t).pc = .la1) ∧
+    (σ.pos (σ.th t).s % σ.N ≠ j → ((stepRun σ t inp).2.th t).pc = .is1) ∧
     (σ.pos (σ.th t).s % σ.N = j → (stepRun σ t inp).2 = startWait (σ.flush t) t j (σ.pos (σ.th t).s)) := by
   constructor
   · intro h
